@@ -275,13 +275,13 @@ def check_text(text, fn, part, label):
 
 # ------------------------------------------------------------------ Pi_scope
 
-ACTS = ('none', 'bind', 'global', 'nonlocal')
+ACTS = ('none', 'bind', 'global', 'nonlocal', 'global-decl')   # global-decl: declared global, not bound at this level
 IDS = ('x', 'y')
 
 
-def levels(depth):
-    stmt_levels = [(k, ax, ay) for k in ('def', 'class') for ax in ACTS for ay in ACTS]
-    expr_levels = [(k, ax, ay) for k in ('lambda', 'comp') for ax in ('none', 'bind') for ay in ('none', 'bind')]
+def levels(depth, y_acts=ACTS):
+    stmt_levels = [(k, ax, ay) for k in ('def', 'class') for ax in ACTS for ay in y_acts]
+    expr_levels = [(k, ax, ay) for k in ('lambda', 'comp') for ax in ('none', 'bind') for ay in (('none', 'bind') if len(y_acts) > 1 else ('none',))]
 
     def rec(d, expr_only):
         if d == 0:
@@ -327,8 +327,8 @@ def render_scope(modbind, ls):
         name = '%s%d' % ('f' if k == 'def' else 'K', n)
         lines.append(pad + ('def %s():' % name if k == 'def' else 'class %s:' % name))
         for v, a in zip(IDS, (ax, ay)):
-            if a in ('global', 'nonlocal'):
-                lines.append(pad + '    %s %s' % (a, v))
+            if a in ('global', 'nonlocal', 'global-decl'):
+                lines.append(pad + '    %s %s' % (a.split('-')[0], v))
         for v, a in zip(IDS, (ax, ay)):
             if a in ('bind', 'global', 'nonlocal'):
                 lines.append(pad + '    %s = %d' % (v, n))
@@ -340,11 +340,23 @@ def render_scope(modbind, ls):
     return '\n'.join(lines) + '\n'
 
 
+def shapes(tier):
+    """quick: depth<=2 over both identifiers, depth 3 with only x varying; thorough: depth<=3 over both"""
+    if tier == 'quick':
+        return [ls for ls in levels(2)] + [ls for ls in levels(3, ('none',)) if len(ls) == 3]
+    return list(levels(3))
+
+
+_SH = {}
+
+
 def unit_scope(arg):
-    depth, lo, hi = arg
+    tier, lo, hi = arg
+    if tier not in _SH:
+        _SH[tier] = shapes(tier)
     part = Part()
-    for i, ls in enumerate(itertools.islice(levels(depth), lo, hi)):
-        for modbind in ((1, 1), (1, 0)):
+    for i, ls in enumerate(_SH[tier][lo:hi]):
+        for modbind in ((1, 1), (1, 0), (0, 0)):
             text = render_scope(modbind, ls)
             try:
                 symtable.symtable(text, '<gen>', 'exec')
@@ -390,17 +402,17 @@ def replay(w):
 
 def run(ctx):
     ctx.level = 'exploration'
-    depth = 3 if ctx.quick else 3
-    n = sum(1 for _ in levels(depth))
+    depth = 3
+    n = len(shapes(ctx.tier))
     step = 400
-    units = [(unit_scope, (depth, lo, min(n, lo + step))) for lo in range(0, n, step)]
-    units += [(unit_file, f) for f in corpus.files(ctx.tier)]
+    units = [(unit_scope, (ctx.tier, lo, min(n, lo + step))) for lo in range(0, n, step)]
+    units += [(unit_file, f) for f in corpus.files('thorough')]     # the whole stdlib is cheap enough for every run
     ctx.pmap(_dispatch, ctx.shuffled(units), chunksize=2)
     c = ctx.counters
     ctx.counters['distinct_nontrivial'] = int(c['programs']) + int(c['files'])
     ctx.coverage.update({
         'rule': 'every read of every corpus file and of every generated nesting (depth<=%d levels of def/class/lambda/comprehension, each level '
-                'none/bind/global/nonlocal per identifier x,y; module binds x and optionally y) compared with symtable; distinct_nontrivial = '
+                'none/bind/global+bind/nonlocal+bind/global-declared-only per identifier x,y (quick: depth 3 varies x only); module binds both, x only, or neither) compared with symtable; distinct_nontrivial = '
                 'modules analysed (each has >=1 compared read)' % depth,
         'scope_shapes': n,
         'reads_compared': int(c['reads']),
